@@ -349,6 +349,30 @@ def close(a, b, tol=1e-9):
     return type(a) is type(b) and a == b
 
 
+_NUM = None
+
+
+def text_close(a, b, tol=1e-9):
+    """two rendered texts are equal up to the last digits of floating-point numbers in them"""
+    global _NUM
+    if a == b:
+        return True
+    if not isinstance(a, str) or not isinstance(b, str):
+        return False
+    import re
+    if _NUM is None:
+        _NUM = re.compile(r'-?\d+\.\d+(?:[eE][-+]?\d+)?')
+    pa, pb = _NUM.split(a), _NUM.split(b)
+    na, nb = _NUM.findall(a), _NUM.findall(b)
+    if pa != pb or len(na) != len(nb):
+        return False
+    for x, y in zip(na, nb):
+        fx, fy = float(x), float(y)
+        if abs(fx - fy) > tol * max(1.0, abs(fx), abs(fy)):
+            return False
+    return True
+
+
 def events_match(impl, model, wire_slack=0):
     """compare two canonical event lists; returns (ok, index, reason)"""
     for i, (x, y) in enumerate(zip(impl, model)):
@@ -358,7 +382,7 @@ def events_match(impl, model, wire_slack=0):
             continue
         if x[0] == 'O' and y[0] == 'F':
             # printf: the implementation hands the formatted string to the sink
-            if x[1] != y[1]:
+            if not text_close(x[1], y[1]):
                 return False, i, 'printf text'
             continue
         if x[0] != y[0]:
